@@ -25,7 +25,7 @@ Proof. exact add_wav_files_sound. Qed.
 Print Assumptions C09_wav_slots_sound.
 
 Theorem C09_switch_slots_sound :
-  forall existing reqs outs, add_switches existing reqs = Ok outs -> table_sound 0 255 [] existing reqs outs.
+  forall existing reqs outs, add_switches existing reqs = Ok outs -> table_sound 0 255 [] existing (carried_first reqs) outs.
 Proof. exact add_switches_sound. Qed.
 Print Assumptions C09_switch_slots_sound.
 
@@ -77,3 +77,14 @@ Theorem C09_anchors :
   add_locations [] [RFresh; RCarry 1; RCarry 1] = Ok [Placed 1; Dropped; Placed 2].
 Proof. exact (conj anywhere_is_never_allocated carried_index_is_respected). Qed.
 Print Assumptions C09_anchors.
+
+(* objects that carry a free index keep it however full the table is: a location carrying a free in-range index
+   (slot 64 included) is placed there even when no ordinary index is left (fix 620b222) *)
+Theorem C09_carried_free_location_is_placed_even_when_full :
+  forall existing ks rest outs,
+    NoDup ks -> (forall k, In k ks -> ~ In k existing) ->
+    add_locations existing (map RCarry ks ++ rest) = Ok outs ->
+    forallb (fun r => match r with RCarry _ => false | _ => true end) rest = true ->
+    firstn (length ks) outs = map Placed ks.
+Proof. exact carried_free_location_is_placed_even_when_full. Qed.
+Print Assumptions C09_carried_free_location_is_placed_even_when_full.
